@@ -210,7 +210,7 @@ PROPS = {
     "C08": P("exploration", [("h2c", 60, 3000), ("expand", 300, 20000), ("chosenu", 80, 4000), ("fh2f", 500, 20000)],
              ["H2C.h2g", "H2C.e2g", "H2C.h2gu", "H2C.e2gu", "XMD.*", "F.h2f"], rule=RULE,
              trusted=["crypto/sha256 (a parameter H in the theorems; the Lean SHA-256 used by the driver is itself compared with crypto/sha256 by XMD.sha)"]),
-    "C09": P("exploration", [("h2s", 100, 5000), ("sfh2f", 1500, 60000), ("expand", 200, 10000), ("chosenu", 40, 2000)],
+    "C09": P("proof", [("h2s", 100, 5000), ("sfh2f", 1500, 60000), ("expand", 200, 10000), ("chosenu", 40, 2000)],
              ["H2C.h2s", "H2C.h2su", "S.h2f", "XMD.*"], rule=RULE,
              trusted=["crypto/sha256 (parameter H)"]),
     "C10": P("exploration", [("history", 12, 400), ("historylong", 0, 12)], ["H.*"], rule=RULE +
